@@ -2,11 +2,14 @@ import CMacVerif.Lemmas.Morton
 import CMacVerif.Lemmas.ShellsRange
 import CMacVerif.Lemmas.Buckets
 import CMacVerif.Lemmas.BucketsGeom
+import CMacVerif.Lemmas.BucketsBuild
 import CMacVerif.Lemmas.AMRGrid
 import CMacVerif.Lemmas.CartesianRay
 import CMacVerif.Lemmas.CartesianSeg
+import CMacVerif.Lemmas.CartesianChord
 import CMacVerif.Lemmas.AMRNgbs
 import CMacVerif.Lemmas.Octree
+import CMacVerif.Lemmas.OctreeFuel
 /-!
 # C16 — every position maps to exactly one cell; grid traversal conserves path
 
@@ -554,6 +557,53 @@ theorem photon_inverse_direction (old : PhotonDir ℝ) (d : V3 ℝ) :
   refine ⟨?_, fun _ _ _ _ _ _ _ => rfl⟩
   rintro ph (rfl | rfl) <;> simp only [PhotonDir.new, PhotonDir.setDirection] <;> norm_num
 
+/-- the deposits ARE the chords.  For a grid as the constructor builds it, a start in the
+half-open box and a ray satisfying `RayOK`, after any number of loop iterations: the deposit
+`(c, ds)` made after the deposits `older` covers the line parameters `[T, T + ds]`, `T = Σ older`;
+there is a cell `i` of the grid with long index `c` and an image `σ` of the line (whole box lengths
+on periodic axes only, `σ = 0` without periodicity) such that
+* the whole interval lies in the closed chord of cell `i` (the deposit is part of the chord), and
+* wherever on that interval (any image of) the line is in the OPEN box of a cell `j`, that cell is
+  `i` and the image is `σ` (no part of the open chord of another cell is credited to `c`).
+Together with `cartesian_path_sum` (the intervals tile `[0, S]`): the parameter set credited to a
+cell lies between its open and its closed chord, i.e. equals the chord up to the end points. -/
+theorem cartesian_deposits_are_chords (big : ℝ) (box : Box3 ℝ) (n : I3) (px py pz : Bool) (m : Medium ℝ)
+    (p d inv : V3 ℝ) (tau : ℝ) (fuel : Nat) (hnx : 0 < n.x) (hny : 0 < n.y) (hnz : 0 < n.z) (hb : PosBox box)
+    (hp : InBox box p) (hr : RayOK big (mkGrid box n px py pz) d inv) :
+    let g := mkGrid box n px py pz
+    let r := interact big g m p d inv tau fuel
+    ∀ (newer older : List (Int × ℝ)) (c : Int) (ds : ℝ), r.path = newer ++ (c, ds) :: older →
+      0 ≤ ds ∧ ∃ (i : I3) (σ : V3 ℝ), InRange' g.n i ∧ longIndex g.n i = c ∧ Lattice g σ ∧
+        (∀ t, pathSum older ≤ t → t ≤ pathSum older + ds → ClosedChord (cellBox g i) p d σ t) ∧
+        (∀ (t : ℝ) (j : I3) (σ' : V3 ℝ), pathSum older ≤ t → t ≤ pathSum older + ds → InRange' g.n j →
+          Lattice g σ' → OpenChord (cellBox g j) p d σ' t → j = i ∧ σ' = σ) := by
+  intro g r newer older c ds hpath
+  have hg : GridOK g := ⟨hnx, hny, hnz, hb.1, hb.2.1, hb.2.2, by simp [g, mkGrid, ofInt_real],
+    by simp [g, mkGrid, ofInt_real], by simp [g, mkGrid, ofInt_real]⟩
+  obtain ⟨hrange, hin, _, _, _, _⟩ := cartesian_unique_cell box n px py pz p hnx hny hnz hb hp
+  set st0 : St ℝ := ⟨p, cellIndices g p, tau, [], none, 0.0⟩ with hst0
+  have h0 : SegInv g st0 := by
+    refine ⟨?_, ?_, by simp [hst0]⟩
+    · obtain ⟨a1, a2, a3, a4, a5, a6⟩ := hin
+      exact ⟨a1, a2.le, a3, a4.le, a5, a6.le⟩
+    · have hrange' : InRange n (cellIndices g p) := hrange
+      obtain ⟨a1, a2, a3, a4, a5, a6⟩ := hrange'
+      show Near g.n (cellIndices g p)
+      have hn : g.n = n := rfl
+      rw [hn]; unfold Near; omega
+  have hc0 : ChordInv g d p st0 := by
+    refine ⟨h0, trivial, ⟨0, 0, 0⟩, lattice_zero g, ?_⟩
+    show p = lineAt p (pathSum []) d ⟨0, 0, 0⟩
+    simp [lineAt, pathSum]
+  have hch : Chords g d p r.path := loop_chord big g hg m d inv p hr fuel st0 hc0
+  rw [hpath] at hch
+  obtain ⟨hds, ⟨i, σ, hi, hli, hσ, hc1, hc2⟩, _⟩ := chords_split g d p newer (c, ds) older hch
+  refine ⟨hds, i, σ, hi, hli, hσ, ?_, ?_⟩
+  · intro t ht0 ht1
+    exact closed_convex _ p d σ _ _ t hc1 hc2 ht0 ht1
+  · intro t j σ' ht0 ht1 hj hσ' ho
+    exact cells_unique g hg p d σ σ' t i j hi hj hσ hσ' (closed_convex _ p d σ _ _ t hc1 hc2 ht0 ht1) ho
+
 end Cartesian
 
 /-! ## Bucket-grid nearest neighbour (`PointLocations::get_closest_neighbour`) -/
@@ -653,6 +703,45 @@ example : Geo (⟨⟨0, 0, 0⟩, ⟨1, 1, 1⟩, 1, fun ix iy iz => if ix = 0 ∧
   split_ifs at hq with h
   · obtain ⟨rfl, rfl, rfl⟩ := h; norm_num
   · simp at hq
+
+/-- for the grid the constructor builds (explicit box, `bucketsFrom`: position `i` is pushed to
+the bucket with its three truncated indices): with all positions and the query in the half-open
+box, `Geo` is a theorem, the buckets hold exactly the indices `< npts`, and `get_closest_neighbour`
+returns the brute-force nearest neighbour of ALL positions.  The only remaining hypotheses are the
+fuel bounds of the two model loops (an exhausted fuel is printed by the run). -/
+theorem nearest_is_bruteforce_built (n : Int) (a s : V3 ℝ) (pos : Nat → V3 ℝ) (npts : Nat) (p : V3 ℝ)
+    (fuelR fuel : Nat) (hn : 0 < n) (hb : PosBox (boxOf a s))
+    (hpts : ∀ i < npts, InBox (boxOf a s) (pos i)) (hp : InBox (boxOf a s) p)
+    (hfuelR : ∀ k, Inside (anchorIndex p.x (build n a s pos npts).anchor.x (build n a s pos npts).cs.x)
+      (anchorIndex p.y (build n a s pos npts).anchor.y (build n a s pos npts).cs.y)
+      (anchorIndex p.z (build n a s pos npts).anchor.z (build n a s pos npts).cs.z) n n n (iter k) → k ≤ fuelR)
+    (he : (closest (build n a s pos npts) p fuelR fuel).2 ≠ .fuel) :
+    let r := (closest (build n a s pos npts) p fuelR fuel).1.best
+    (r.r2 < 0 ∧ npts = 0) ∨
+    (r.idx < npts ∧ r.r2 = dist2 (pos r.idx) p ∧ ∀ q < npts, dist2 (pos r.idx) p ≤ dist2 (pos q) p) := by
+  intro r
+  have hg := build_geo n a s pos npts p hn hb hpts hp
+  have hall := build_allPts n a s pos npts
+    (anchorIndex p.x (build n a s pos npts).anchor.x (build n a s pos npts).cs.x)
+    (anchorIndex p.y (build n a s pos npts).anchor.y (build n a s pos npts).cs.y)
+    (anchorIndex p.z (build n a s pos npts).anchor.z (build n a s pos npts).cs.z) hn hb hpts
+  rcases nearest_is_bruteforce (build n a s pos npts) p fuelR fuel hg hfuelR he with ⟨h1, h2⟩ | ⟨h1, h2, h3⟩
+  · left
+    refine ⟨h1, ?_⟩
+    by_contra hne
+    exact h2 0 ((hall 0).mpr (Nat.pos_of_ne_zero hne))
+  · right
+    exact ⟨(hall _).mp h1, h2, fun q hq => h3 q ((hall q).mpr hq)⟩
+
+/-- non-vacuity: two positions and a query in the unit box, a 2³ bucket grid -/
+example : PosBox (boxOf (⟨0, 0, 0⟩ : V3 ℝ) ⟨1, 1, 1⟩) ∧
+    (∀ i < 2, InBox (boxOf (⟨0, 0, 0⟩ : V3 ℝ) ⟨1, 1, 1⟩)
+      ((fun i => if i = 0 then (⟨0.25, 0.25, 0.25⟩ : V3 ℝ) else ⟨0.75, 0.5, 0.5⟩) i)) ∧
+    InBox (boxOf (⟨0, 0, 0⟩ : V3 ℝ) ⟨1, 1, 1⟩) ⟨0.3, 0.3, 0.3⟩ := by
+  refine ⟨⟨by norm_num [boxOf], by norm_num [boxOf], by norm_num [boxOf]⟩, ?_, by norm_num [InBox, boxOf]⟩
+  intro i hi
+  have : i = 0 ∨ i = 1 := by omega
+  rcases this with rfl | rfl <;> norm_num [InBox, boxOf]
 
 end Buckets
 
@@ -864,6 +953,39 @@ theorem octree_single_position (pos : Nat → V3 ℝ) (box : Box3 ℝ) (h : Nat 
     searchRoot (fun i => dist (pos i) c) (fun b => boxDist b c) h radius (build pos 1 box h) =
       if dist (pos 0) c ≤ limOf h radius 0 then [0] else [] := by
   cases radius <;> rfl
+
+/-- the full statement for separated positions: if no two positions are closer than `2⁻⁶²` box
+sides on all three axes (`¬ Close box 62`), `add_position` never descends deeper than 63 levels,
+every index is stored (`build_all_stored`), and the pruned searches return exactly the brute-force
+answer over ALL positions -/
+theorem octree_build_search (pos : Nat → V3 ℝ) (n : Nat) (box : Box3 ℝ) (h : Nat → ℝ) (c : V3 ℝ)
+    (radius : Option ℝ) (hr : ∀ r, radius = some r → 0 ≤ r) (hb : PosBox box)
+    (hin : ∀ i < n, InBox box (pos i))
+    (sep : ∀ i j, i < n → j < n → i ≠ j → ¬ Close box 62 (pos i) (pos j)) (i : Nat) :
+    i ∈ searchRoot (fun i => dist (pos i) c) (fun b => boxDist b c) h radius (build pos n box h) ↔
+      i < n ∧ dist (pos i) c ≤ limOf h radius i := by
+  obtain ⟨h1, h2⟩ := octree_build_search_partial pos n box h c radius hr hb hin i
+  rw [h1]
+  constructor
+  · rintro ⟨a, b⟩; exact ⟨h2 a, b⟩
+  · rintro ⟨a, b⟩; exact ⟨build_all_stored pos n box h hb hin sep i a, b⟩
+
+/-- the separation hypothesis is satisfiable: two positions half a box apart -/
+example : ∀ i j, i < 2 → j < 2 → i ≠ j → ¬ Close (⟨0, 0, 0, 1, 1, 1⟩ : Box3 ℝ) 62
+    ((fun i => if i = 0 then (⟨0.25, 0.25, 0.25⟩ : V3 ℝ) else ⟨0.75, 0.5, 0.5⟩) i)
+    ((fun i => if i = 0 then (⟨0.25, 0.25, 0.25⟩ : V3 ℝ) else ⟨0.75, 0.5, 0.5⟩) j) := by
+  intro i j hi hj hne hc
+  have hp : (1 / 2 : ℝ) ^ 62 ≤ 1 / 4 := by
+    have : (1 / 2 : ℝ) ^ 62 ≤ (1 / 2 : ℝ) ^ 2 := pow_le_pow_of_le_one (by norm_num) (by norm_num) (by norm_num)
+    linarith [this, (by norm_num : (1 / 2 : ℝ) ^ 2 = 1 / 4)]
+  have hi' : i = 0 ∨ i = 1 := by omega
+  have hj' : j = 0 ∨ j = 1 := by omega
+  obtain ⟨hx, _, _⟩ := hc
+  rcases hi' with rfl | rfl <;> rcases hj' with rfl | rfl
+  · exact hne rfl
+  · norm_num at hx <;> (rw [abs_lt] at hx; linarith [hx.1])
+  · norm_num at hx <;> (rw [abs_lt] at hx; linarith [hx.2])
+  · exact hne rfl
 
 /-- `add_position` never loses a stored index and adds at most the new one -/
 theorem octree_add_position_leaves (pos : Nat → V3 ℝ) (index fuel : Nat) (t : OT ℝ) (box : Box3 ℝ) (i : Nat) :
